@@ -295,6 +295,10 @@ func cmdCheck(args []string) int {
 		if still {
 			knownSeen++
 			fmt.Printf("KNOWN-FINDING: property=%s %s: %s (engine paths in class this run: %d)\n", *prop, id, k.What, len(knownHits[id]))
+		} else if o.Outcome != "ok" {
+			// the recorded witness does not fit the harness any more (its nondet sequence changed):
+			// the finding can neither be confirmed nor declared gone
+			inconclusive = append(inconclusive, fmt.Sprintf("the witness of known finding %s cannot be replayed (%s: %s): regenerate it", id, o.Outcome, o.Msg))
 		} else {
 			fmt.Printf("[%s] note: listed witness of known finding %s no longer fails natively (%s)\n", *prop, id, o.Outcome)
 			// the class no longer describes the recorded defect: failures inside it are violations
